@@ -145,6 +145,19 @@ def c03_case(ctx: Ctx, case: dict):
                     ctx.count("numpy_jax_differ_beyond_64ulp")
         except Exception:
             pass
+    c03_split(ctx, case, rm, pts)
+
+
+def c03_split(ctx: Ctx, case: dict, rm, pts):
+    """`missing_values` and the functions with the extra `missing_variables` argument under JAX: every component is
+    split off, both parts are generated with the JAX backend (with and without unused-variable removal), fed from
+    the full model and compared by name (the C13 procedure; keys C03/jax/split/...)"""
+    if len(rm.comps) < 2:
+        return
+    from . import structsuite
+    ctx.count("split_models")
+    structsuite.c13_case(ctx, {"text": case["text"], "points": [pt for pt in pts if "dt" in pt][:2]}, backend="jax", tag="C03/jax/split",
+                         count_case=False)
 
 
 def c03_extra(ctx: Ctx):
@@ -267,6 +280,10 @@ def big_cfg(ctx, k):
         cfg.depth = 1
         cfg.min_states = 11
     cfg.expr = gen.ExprCfg(p_floor=0.0, p_mod=0.01, p_cond=0.25, p_logic=0.7, p_idiom=0.25)
+    if k % 3 == 2:
+        # several components: C03 splits them and runs missing_values & co. under JAX
+        cfg.force_comps = True
+        cfg.max_inters = max(cfg.max_inters, 5)
     return cfg
 
 
